@@ -68,23 +68,19 @@ def run(ctx):
         f = o["fn"]
         ctx.touch(f)
         key = "%s|%s@%s" % (f.name, o["kind"], "shard-of-" + (fmt(o["shard_arg"]) if o["shard_arg"] is not None else "?"))
-        ctx.check(o["shard_arg"] is not None, "R10.1", key + "|shard-from-expiry", "the map operation is performed on shards[shard_index(expiry)]", f.where(o["bb"]))
+        ctx.check(o["shard_arg"] is not None, "R10.1", key + "|shard-from-expiry", "the map operation is performed on shards[shard_index(expiry)]", o["site_fn"].where(o["bb"]))
         if o["shard_arg"] is None:
             continue
         if o["kind"] == "insert":
             ctx.check(same_value(o["args"][1], o["shard_arg"]), "R10.1", key + "|insert-under-own-expiry",
-                      "an entry is inserted into the shard of the expiry it is stored with", f.where(o["bb"]), "value=%s shard_of=%s" % (fmt(o["args"][1]), fmt(o["shard_arg"])))
+                      "an entry is inserted into the shard of the expiry it is stored with", o["site_fn"].where(o["bb"]), "value=%s shard_of=%s" % (fmt(o["args"][1]), fmt(o["shard_arg"])))
         if o["kind"] in ("insert", "remove", "get") and f.kind != "Closure":
-            ctx.check(o["args"][0][0] == "param", "R10.1", key + "|keyed-by-id-param", "the entry is keyed by the id passed in", f.where(o["bb"]), fmt(o["args"][0]))
+            ctx.check(o["args"][0][0] == "param", "R10.1", key + "|keyed-by-id-param", "the entry is keyed by the id passed in", o["site_fn"].where(o["bb"]), fmt(o["args"][0]))
     # update = remove under old, insert under new
     for name in sorted(T.move_fns):
         f = F.fn(name)
-        rem = [o for o in T.ops if o["fn"] is f and o["kind"] == "remove"]
-        ins = [o for o in T.ops if o["fn"] is f and o["kind"] == "insert"]
-        ok = len(rem) == 1 and len(ins) == 1 and rem[0]["shard_arg"] is not None and ins[0]["shard_arg"] is not None and \
-            strip_site(rem[0]["shard_arg"]) != strip_site(ins[0]["shard_arg"]) and same_value(rem[0]["args"][0], ins[0]["args"][0]) and \
-            (ins[0]["bb"] in f.reach_after(rem[0]["bb"]) or (ins[0]["bb"] == rem[0]["bb"])) and rem[0]["bb"] not in f.reach_after(ins[0]["bb"]) and f.must_pass([0], [ins[0]["bb"]]) and f.must_pass([0], [rem[0]["bb"]])
-        ctx.check(ok, "R10.1", "%s|move-old-to-new" % name, "a TTL change first removes the id from the old expiry's shard and then inserts it under the new expiry's shard, on every path (insert-then-remove would delete the fresh entry whenever both expiries share a shard)", f.where())
+        ok, why = T.move_check(name)
+        ctx.check(ok, "R10.1", "%s|move-old-to-new" % name, "a TTL change first removes the id from the old expiry's shard and then inserts it under the new expiry's shard, on every path (insert-then-remove would delete the fresh entry whenever both expiries share a shard)", f.where(), why)
 
     # ---- R10.2 sweep ------------------------------------------------------------------------------
     retains = [o for o in T.ops if o["kind"] == "retain"]
@@ -92,10 +88,10 @@ def run(ctx):
     for o in retains:
         f = o["fn"]
         sa = o["shard_arg"]
-        ctx.check(sa is not None and is_call_to(sa, "Clock::now"), "R10.2", "%s|sweeps-shard-of-now" % f.name, "the sweep visits the shard of the current time", f.where(o["bb"]), fmt(sa) if sa else "")
+        ctx.check(sa is not None and is_call_to(sa, "Clock::now"), "R10.2", "%s|sweeps-shard-of-now" % f.name, "the sweep visits the shard of the current time", o["site_fn"].where(o["bb"]), fmt(sa) if sa else "")
         clo = o["args"][0]
         if clo[0] != "agg":
-            ctx.bad("R10.2", "%s|retain-closure" % f.name, "retain predicate is a closure literal", f.where(o["bb"]))
+            ctx.bad("R10.2", "%s|retain-closure" % f.name, "retain predicate is a closure literal", o["site_fn"].where(o["bb"]))
             continue
         c = F.fn(clo[1])
         ctx.touch(c)
